@@ -19,7 +19,7 @@ def key_fn(case, obs, verdict):
     first = next((i for i, (a, b) in enumerate(zip(want, got)) if a != b), min(len(want), len(got)))
     last_tok = f[-1].split(":") if len(f) > 4 else []
     if f[0] in ("uripost", "raw") and fin == "no-final-newline" and last_tok[:1] == ["R"] and last_tok[-1] == "-" \
-            and not any(t[:2] in ("R:", "H:") and len(t) > 8000 for t in f[4:]):
+            and not any(t[:2] in ("R:", "H:") and len(t) > 8000 for t in f[4:]) and "@" not in f[1] and "%" not in f[1]:
         return "%s:last-entry-empty-body-unterminated:entry-dropped:%s" % (f[0], status)
     kind = "count" if nd_want != nd_got else "content"
     # round-5 dimensions of the case: instance schedule (deliveries materialised after later Acquires),
